@@ -509,6 +509,11 @@ class C2Http:
         keys = keys or self.beacon_keys
 
         transform = self.get_transform_for_http(http)
+        if isinstance(http, HttpRequest):
+            # data placed with `uri-append` follows the configured URI, strip that URI so recover() sees the data only
+            bases = (self.submit_uri,) if transform is self.transform_submit else self.get_uris
+            base = max((uri for uri in bases if http.uri.startswith(uri)), key=len, default=b"")
+            http = http._replace(uri=http.uri[len(base) :])
         c2data = transform.recover(http)
 
         # decrypt c2data.metadata, if available and we have a private key
